@@ -52,14 +52,27 @@ func genericShrink(t *Trial, columns bool) []*Trial {
 				out = append(out, withFile(t, n, canon))
 			}
 			if len(recs) > 1 {
-				for k := len(recs) - 1; k >= 0; k-- {
-					var sb strings.Builder
-					for i, r := range recs {
-						if i != k {
-							sb.WriteString(r.head + "\n" + r.seq[0] + "\n")
+				// delta debugging over records: drop big chunks first, single records last
+				for size := len(recs) / 2; size >= 1; size /= 2 {
+					for lo := 0; lo < len(recs); lo += size {
+						hi := lo + size
+						if hi > len(recs) {
+							hi = len(recs)
 						}
+						if hi-lo == len(recs) {
+							continue
+						}
+						var sb strings.Builder
+						for i, r := range recs {
+							if i < lo || i >= hi {
+								sb.WriteString(r.head + "\n" + r.seq[0] + "\n")
+							}
+						}
+						out = append(out, withFile(t, n, sb.String()))
 					}
-					out = append(out, withFile(t, n, sb.String()))
+					if len(out) > 60 {
+						break
+					}
 				}
 			}
 			for _, r := range recs {
@@ -70,13 +83,30 @@ func genericShrink(t *Trial, columns bool) []*Trial {
 				}
 			}
 		case isSamText(s):
-			lines := strings.SplitAfter(s, "\n")
-			for k := len(lines) - 1; k >= 0; k-- {
-				if lines[k] == "" || strings.HasPrefix(lines[k], "@") {
+			var hdr, body []string
+			for _, l := range strings.SplitAfter(s, "\n") {
+				if l == "" {
 					continue
 				}
-				c := append(append([]string(nil), lines[:k]...), lines[k+1:]...)
-				out = append(out, withFile(t, n, strings.Join(c, "")))
+				if strings.HasPrefix(l, "@") {
+					hdr = append(hdr, l)
+				} else {
+					body = append(body, l)
+				}
+			}
+			for size := len(body) / 2; size >= 1 && len(body) > 1; size /= 2 {
+				for lo := 0; lo < len(body); lo += size {
+					hi := lo + size
+					if hi > len(body) {
+						hi = len(body)
+					}
+					c := append(append([]string(nil), hdr...), body[:lo]...)
+					c = append(c, body[hi:]...)
+					out = append(out, withFile(t, n, strings.Join(c, "")))
+				}
+				if len(out) > 60 {
+					break
+				}
 			}
 		}
 	}
